@@ -666,8 +666,47 @@ fn run_same(ws: &[&str]) -> String {
                                 polls.set(polls.get() + 1);
                                 $c(r)
                             };
-                            let r = client.exchange_device_access_token(&details).set_time_fn(clock).request(&counted, |_d| {}, None);
-                            format!("{} polls={}", show!(r, |v: &oauth2::basic::BasicTokenResponse| tok_bytes(serde_json::to_string(v).unwrap().as_bytes())), polls.get())
+                            let sleeps = std::cell::RefCell::new(Vec::<u128>::new());
+                            let r = client.exchange_device_access_token(&details).set_time_fn(clock).request(&counted, |d| sleeps.borrow_mut().push(d.as_millis()), None);
+                            format!("{} polls={} sleeps={:?}", show!(r, |v: &oauth2::basic::BasicTokenResponse| tok_bytes(serde_json::to_string(v).unwrap().as_bytes())), polls.get(), sleeps.borrow())
+                        }
+                        // the future-based twin of the same session (adapter side: the crate's AsyncHttpClient for reqwest::Client)
+                        "devpoll_async" => {
+                            let n = std::sync::atomic::AtomicI64::new(0);
+                            let polls = std::sync::atomic::AtomicU32::new(0);
+                            let clock = || {
+                                let k = n.fetch_add(1, std::sync::atomic::Ordering::SeqCst) + 1;
+                                chrono::DateTime::<chrono::Utc>::from_timestamp(1_700_000_000 + 8 * k, 0).unwrap()
+                            };
+                            let sleeps = std::sync::Mutex::new(Vec::<u128>::new());
+                            let sleep_fn = |d: Duration| {
+                                sleeps.lock().unwrap().push(d.as_millis());
+                                std::future::ready(())
+                            };
+                            let rt = tokio::runtime::Builder::new_current_thread().enable_all().build().unwrap();
+                            let r = if which == 0 {
+                                let http = reqwest::ClientBuilder::new().redirect(reqwest::redirect::Policy::none()).build().unwrap();
+                                struct Counting<'a>(&'a reqwest::Client, &'a std::sync::atomic::AtomicU32);
+                                impl<'c, 'a: 'c> AsyncHttpClient<'c> for Counting<'a> {
+                                    type Error = <reqwest::Client as AsyncHttpClient<'c>>::Error;
+                                    type Future = <reqwest::Client as AsyncHttpClient<'c>>::Future;
+                                    fn call(&'c self, request: HttpRequest) -> Self::Future {
+                                        self.1.fetch_add(1, std::sync::atomic::Ordering::SeqCst);
+                                        AsyncHttpClient::call(self.0, request)
+                                    }
+                                }
+                                let c = Counting(&http, &polls);
+                                let r = rt.block_on(client.exchange_device_access_token(&details).set_time_fn(clock).request_async(&c, sleep_fn, None));
+                                show!(r, |v: &oauth2::basic::BasicTokenResponse| tok_bytes(serde_json::to_string(v).unwrap().as_bytes()))
+                            } else {
+                                let mem = |r: HttpRequest| {
+                                    polls.fetch_add(1, std::sync::atomic::Ordering::SeqCst);
+                                    std::future::ready(in_memory(r))
+                                };
+                                let r = rt.block_on(client.exchange_device_access_token(&details).set_time_fn(clock).request_async(&mem, sleep_fn, None));
+                                show!(r, |v: &oauth2::basic::BasicTokenResponse| tok_bytes(serde_json::to_string(v).unwrap().as_bytes()))
+                            };
+                            format!("{} polls={} sleeps={:?}", r, polls.load(std::sync::atomic::Ordering::SeqCst), sleeps.lock().unwrap())
                         }
                         _ => BAD.to_string(),
                     }
